@@ -89,6 +89,16 @@ pub const FAULT_LINES: &[(&str, &str)] = &[
     ("invalid_identifier.leading_digit", "1abc is 5"),
     ("invalid_identifier.in_expression", "say zz9"),
     ("invalid_identifier.in_target", "put 1 into q_q"),
+    // the same with characters beyond ASCII that are not letters
+    ("invalid_identifier.superscript_digit", "x² is 5"),
+    ("invalid_identifier.arrow_inside", "a→b is 5"),
+    ("invalid_identifier.arabic_digit", "total٣ is 5"),
+    ("invalid_identifier.vulgar_fraction", "ab½ is 5"),
+    ("invalid_identifier.curly_apostrophe", "Tommy’s is 5"),
+    ("invalid_identifier.emoji", "x😀 is 5"),
+    ("invalid_identifier.accented_then_symbol", "é² is 5"),
+    ("invalid_identifier.non_ascii_in_expression", "say zz€"),
+    ("invalid_identifier.non_ascii_in_target", "put 1 into q→q"),
     ("unterminated.string", "\"abc"),
     ("unterminated.comment", "(abc"),
     ("unterminated.string_in_expression", "say \"abc"),
